@@ -212,9 +212,13 @@ def ensureLevels (L : Nat) (levels : List Level) : List Level :=
 
 /-- `for lv in range(L-1): (x[lv], x[lv+1]) = step lv x[lv] x[lv+1]` — the level list is
 traversed front to back; the head of the list is level `lv`. -/
-def sweep {α : Type} (step : Nat → α → α → α × α) : Nat → List α → List α
-  | lv, a :: b :: rest => (step lv a b).1 :: sweep step (lv + 1) ((step lv a b).2 :: rest)
-  | _, l => l
+def sweepGo {α : Type} (step : Nat → α → α → α × α) : Nat → α → List α → List α
+  | _, a, [] => [a]
+  | lv, a, b :: rest => (step lv a b).1 :: sweepGo step (lv + 1) (step lv a b).2 rest
+
+def sweep {α : Type} (step : Nat → α → α → α × α) (lv : Nat) : List α → List α
+  | [] => []
+  | a :: rest => sweepGo step lv a rest
 
 /-- `[h lv x[lv] for lv in range(lv0, …)]` -/
 def mapFrom {α β : Type} (h : Nat → α → β) : Nat → List α → List β
